@@ -22,7 +22,7 @@ import (
 
 func init() {
 	Register(&Prop{
-		ID: "C07", Engine: "B", Quick: 4000, Thorough: 60000, Level: "fault_enumeration",
+		ID: "C07", Engine: "B", AltEvery: 4, Quick: 4000, Thorough: 60000, Level: "fault_enumeration",
 		Rule: "each case = one stream produced by the library's own encoders (a block of drawn columns and rows, plain or in one frame of each compression method; a single column; or a protocol message: ClientHello, ServerHello, Query with ClientInfo, Progress, Profile, Exception chain, TableColumns, at a drawn revision); the crash point is the cut position: every k in 0..len-1 for streams up to 4 KiB (for longer ones the first and last 128 positions and 600 drawn ones), each with a drawn end flavour ((0,EOF), (n>0,EOF), reset, unexpected EOF) and source segmentation; decoding goes through typed targets and, where the types are inferable, through automatic inference; oracle = every proper prefix fails with an error and nothing panics; evaluations = prefix decodes; distinct = distinct (stream, cut) pairs; non-trivial = all of them (every one is a truncation)",
 		Run:  runC07,
 	})
